@@ -292,6 +292,10 @@ func c05r4(c *Ctx) {
 								if v.txn == el && el != nil && f.OnlyVia(n, v.chk.Succ) {
 									okOne = true
 								}
+								// the staged list may hold positions: S = append(S, i) after Validate(ms, X[i]) succeeded
+								if ix, isIdx := ast.Unparen(v.call.Expr.Args[1]).(*ast.IndexExpr); isIdx && el != nil && f.ObjOf(ix.Index) == el && f.OnlyVia(n, v.chk.Succ) {
+									okOne = true
+								}
 							}
 							if !okOne {
 								good = false
